@@ -43,6 +43,18 @@ FUN_POSITIONS = [   # whole-definition templates (return positions)
     ("ret T?->T", False, "def q{n}(y: {T}?) -> {T} => y\n"),
     ("ret stmt None->T", False, "def q{n}() -> {T} =>\n    return None\n"),
     ("field init None->T", False, "class F{n}\n    def f: {T} := None\n"),
+    # default values of parameters (functions, methods, class arguments, anonymous functions are not annotated)
+    ("default None->T", False, "def q{n}(a: {T} := None) -> Int => 1\n"),
+    ("default None->T second", False, "def q{n}(z: Int, a: {T} := None) -> Int => 1\n"),
+    ("default T?->T", False, "def dq{n}: {T}? := {v}\ndef q{n}(a: {T} := dq{n}) -> Int => 1\n"),
+    ("method default None->T", False, "class D{n}\n    def q(fin self, a: {T} := None) -> Int => 1\n"),
+    ("class argument default None->T", False, "class D{n}(def a: {T} := None)\n"),
+    ("default None->T?", True, "def q{n}(a: {T}? := None) -> Int => 1\n"),
+    ("default T->T?", True, "def q{n}(a: {T}? := {v}) -> Int => 1\n"),
+    ("method default None->T?", True, "class D{n}\n    def q(fin self, a: {T}? := None) -> Int => 1\n"),
+    ("ret in loop None->T", False, "def q{n}() -> {T} =>\n    for i in 0 .. 2 do\n        return None\n    {v}\n"),
+    ("ret conditional None->T", False, "def q{n}(c: Bool) -> {T} => if c then None else {v}\n"),
+    ("ret conditional in loop None->T", False, "def q{n}(c: Bool) -> {T} =>\n    while c do\n        return if c then {v} else None\n    {v}\n"),
     ("field init None->T?", True, "class F{n}\n    def f: {T}? := None\n"),
 ]
 CONTEXTS = {
